@@ -167,6 +167,37 @@ def _len_offset(t):
     return None
 
 
+def raw_offset(idx):
+    """Constant offset of an index from the raw searchsorted count, clamps ignored; None if not of that form."""
+    if idx[0] == "add":
+        const, rest = 0, []
+        for x in idx[1]:
+            v = _num(x)
+            if v is not None:
+                const += v
+            else:
+                rest.append(x)
+        if len(rest) != 1:
+            return None
+        r = raw_offset(rest[0])
+        return None if r is None else r + const
+    if idx[0] == "call" and idx[1][0] == "ext":
+        q = idx[1][1]
+        kw = dict(idx[3])
+        if q == "jax.numpy.searchsorted":
+            return 0
+        if q == "jax.numpy.maximum":
+            for a in (kw.get("x1"), kw.get("x2")):
+                if a is not None and _num(a) is None:
+                    return raw_offset(a)
+        if q == "jax.numpy.clip" and kw.get("a") is not None:
+            return raw_offset(kw["a"])
+        if q == "jax.numpy.where" and kw.get("y") is not None:
+            r = raw_offset(kw["y"])
+            return r if r is not None else (raw_offset(kw["x"]) if kw.get("x") is not None else None)
+    return None
+
+
 def _num(t):
     if t is not None and is_const(t) and isinstance(t[1], int) and not isinstance(t[1], bool):
         return t[1]
@@ -176,7 +207,8 @@ def _num(t):
 def rule_bin(prog: Program, rep: Report, rid: str):
     rep.rule(rid, "spline bin index k (and k+1) stays inside the padded knot tables for every input: "
                   "range analysis of searchsorted(...)-1 with the closedness of the in-bounds mask, the "
-                  "searchsorted side and the clamps that dominate the subscripts", minimum=9)
+                  "searchsorted side and the clamps that dominate the subscripts; the two subscripts are the knots "
+                  "around the operand (offsets -1 and 0 from the count)", minimum=12)
     c = prog.cls(SPLINE)
     for name in ("transform", "inverse", "derivative"):
         t = spline_method_term(prog, name)
@@ -212,6 +244,11 @@ def rule_bin(prog: Program, rep: Report, rid: str):
         rep.check(not cutmsgs, rid, site, f"{c.qualname}.{name}:clamp-keeps-feasible-bins",
                   "clamps only remove out-of-table indices",
                   "; ".join(cutmsgs) + " (a point of that bin is evaluated with the neighbouring bin's formula)")
+        offs = sorted({raw_offset(i2) for i2 in idxs.values() if raw_offset(i2) is not None})
+        rep.check(offs == [-1, 0], rid, site, f"{c.qualname}.{name}:bin-contains-operand",
+                  "subscripts are count-1 (left knot) and count (right knot) of the knots not above the operand",
+                  f"knot subscripts sit at offsets {offs} from searchsorted's count, expected [-1, 0]: the piece "
+                  f"evaluated is not the one that contains the operand")
         rep.check(hi_all <= -1, rid, site, f"{c.qualname}.{name}:upper-end",
                   f"max index <= n{hi_all:+d}",
                   f"bin index can reach n{hi_all:+d} (> n-1) at the upper interval end")
